@@ -420,10 +420,11 @@ class Segment(object):
         while len(self.elements) <= ele_idx:
             # insert blank values before our value if needed
             self.elements.append(Composite('', self.subele_term))
-        if self.seg_id == 'ISA' and ele_idx == 15:
-            #Special handling for ISA segment
-            #guarantee subele_term will not be matched
-            self.elements[ele_idx] = Composite(val, self.ele_term)
+        if self.seg_id == 'ISA' and (ele_idx == 15 or comp_idx is None):
+            #Special handling for ISA segment: its elements are never composites (see __init__),
+            #the value is taken as it is, whichever delimiter characters it holds
+            self.elements[ele_idx] = Composite('', self.ele_term)
+            self.elements[ele_idx][0] = Element(val)
             return
         if comp_idx is None:
             self.elements[ele_idx] = Composite(val, self.subele_term)
